@@ -401,6 +401,64 @@ def check_history(ck):
     return [c for c, _ in first]
 
 
+BAD_BYTES = [b'\xb1', b'\xa0', b'\xff', b'\xe2\x82', b'\xc3', b'\xf0\x9f\x98', b'\x80\x80']
+
+
+def check_bytes(ck, n):
+    """the byte-level path: what a harness wrote reaches the adapter through
+    `rebench.output.output_as_str` (subprocess_with_timeout). A line that misses the format only
+    because of a byte that is not valid UTF-8 (a Latin-1 character, a multi-byte character cut off)
+    is noise; the byte must not be dropped silently, or the rest of the line becomes a format line.
+    Oracle: parsing the output as ReBench decodes it equals parsing it with every undecodable byte
+    replaced by U+FFFD (the documented `errors="replace"`); the model gets the latter text."""
+    from rebench.output import output_as_str
+    cases = []
+    for _ in range(n):
+        a = ck.rng.choice(da.ADAPTERS)
+        c = gen_case(ck.rng, a)
+        eol = b'\r\n' if c['eol'] == 'crlf' else b'\n'
+        lines = c['text'].encode('utf-8').split(b'\n')
+        for _k in range(ck.rng.choice([1, 1, 2, 3])):
+            _bait['on'] = True
+            try:
+                bait_lines, _ = RENDER[a](ck.rng, 1)
+            finally:
+                _bait['on'] = False
+            bl = ck.rng.choice(bait_lines).encode('utf-8')
+            pos = ck.rng.randint(0, len(bl))
+            # not inside a multi-byte character of the line itself
+            while 0 < pos < len(bl) and (bl[pos] & 0xC0) == 0x80:
+                pos += 1
+            broken = bl[:pos] + ck.rng.choice(BAD_BYTES) + bl[pos:]
+            lines.insert(ck.rng.randint(0, len(lines)), broken + (b'\r' if eol == b'\r\n' else b''))
+        raw = b'\n'.join(lines)
+        cases.append((a, c['inv'], raw))
+    ops = [{'op': 'c05.parse', 'adapter': a, 'text': raw.decode('utf-8', 'replace'), 'faulty': False, 'inv': inv}
+           for (a, inv, raw) in cases]
+    answers = da.model_parallel(ck, ops)
+    for (a, inv, raw), ans in zip(cases, answers):
+        ref_text = raw.decode('utf-8', 'replace')
+        impl_text = output_as_str(raw)
+        ref = da.impl_parse(a, ref_text, False, inv)
+        impl = da.impl_parse(a, impl_text, False, inv)
+        model = da.model_obs(ans)
+        dropped = da.impl_parse(a, raw.decode('utf-8', 'ignore'), False, inv)
+        ck.count('bytes:' + a)
+        if da.jsonable(dropped) != da.jsonable(ref):
+            ck.count('bytes:dropping-the-byte-would-change-the-result')
+        inp = {'kind': 'bytes', 'adapter': a, 'inv': inv, 'raw_latin1': raw.decode('latin-1')}
+        ck.case(nontrivial_key=('bytes', a, raw), sample={'adapter': a, 'raw': repr(raw[:200])})
+        if da.jsonable(impl) != da.jsonable(ref):
+            ck.oracle_fail('undecodable_byte_is_noise', inp,
+                           {'as_rebench_decodes_it': da.jsonable(impl), 'with_U+FFFD': da.jsonable(ref),
+                            'decoded': impl_text[:300]},
+                           {'adapter': a, 'clause': 'undecodable_byte_is_noise'})
+        d = da.structure_diff(impl, model, 3 if a == 'TimeP' else 1)
+        if d is not None:
+            ck.disagree('c05.parse (byte-level): output_as_str + %s.parse_data vs RB.Adapters.parse on the text with U+FFFD (%s)' % (a, d),
+                        inp, da.jsonable(impl), da.jsonable(model), TH_ROUNDTRIP + TH_CLASSIFY)
+
+
 def check_roundtrip(ck, cases):
     ops = [{'op': 'c05.parse', 'adapter': c['adapter'], 'text': c['text'], 'faulty': False, 'inv': c['inv']} for c in cases]
     answers = da.model_parallel(ck, ops)
@@ -709,6 +767,7 @@ def run(ck):
         ck.notes.append('BUDGET: ' + msg)
         ck.count('budget-exceeded:cases-skipped', IMPL_BUDGET['skipped'])
         print('BUDGET property=C05 ' + msg)
+    check_bytes(ck, 600 if quick else 20000)
     check_recognisers(ck, 2000 if quick else 100000)
     session_cases(ck, 24 if quick else 300)
 
@@ -716,7 +775,10 @@ def run(ck):
 def replay(ck, data):
     da.check_alphabet()
     inp = data['input']
-    if inp.get('kind') == 'roundtrip':
+    if inp.get('kind') == 'bytes':
+        ck.notes.append('byte-level replays are re-generated from the seed: VERIF_SEED=%s' % data.get('seed'))
+        check_bytes(ck, 600)
+    elif inp.get('kind') == 'roundtrip':
         check_roundtrip(ck, [from_stored(inp)])
     elif inp.get('kind') == 'session':
         ck.notes.append('session replays are re-generated from the seed: VERIF_SEED=%s' % data.get('seed'))
